@@ -108,6 +108,108 @@ def items():
             Hole("expression.trailing_comments_search(CommentSearch::Single)", "trailing_single_comments(expression)", kind="wrapper", why="GetTrailingTrivia default method (iterator chain)"),
             Hole("strip_trivia(&key).to_string().len()", "verif::hole_usize()", why="Display width of a node"),
         ]),
+        # ---- the table loops: one formatted field per field, each by the formatter it is handed, under the ignore state folded over the fields in front of it ----
+        Raw("""
+#[verifier::external_type_specification] #[verifier::reject_recursive_types(T)] pub struct ExPair<T>(Pair<T>);
+pub uninterp spec fn ppairs<T>(p: Punctuated<T>) -> Seq<Pair<T>>;
+pub open spec fn pair_value<T>(p: Pair<T>) -> T { match p { Pair::End(v) => v, Pair::Punctuated(v, _) => v } }
+pub assume_specification<T> [Punctuated::<T>::pairs] (p: &Punctuated<T>) -> (r: impl Iterator<Item = &Pair<T>>)
+    ensures it_rest(&r).len() == ppairs(*p).len(), forall|i: int| 0 <= i < it_rest(&r).len() ==> *(#[trigger] it_rest(&r)[i]) == ppairs(*p)[i];
+pub assume_specification<T> [Punctuated::<T>::new] () -> (r: Punctuated<T>) ensures ppairs(r).len() == 0;
+pub assume_specification<T> [Punctuated::<T>::push] (p: &mut Punctuated<T>, pair: Pair<T>) ensures ppairs(*final(p)) == ppairs(*old(p)).push(pair);
+pub assume_specification<T> [Pair::<T>::new] (v: T, p: Option<TokenReference>) -> (r: Pair<T>) ensures pair_value(r) == v;
+pub assume_specification<T> [Pair::<T>::value] (p: &Pair<T>) -> (r: &T) ensures *r == pair_value(*p);
+pub assume_specification<T> [Pair::<T>::punctuation] (p: &Pair<T>) -> (r: Option<&TokenReference>);
+#[verifier::external_body] pub fn peekable<I: Iterator>(it: I) -> (r: std::iter::Peekable<I>) ensures pk_rest(&r) == it_rest(&it) { it.peekable() }
+// the ignore state after the first n fields: check_toggle_formatting folded over them (field i is formatted under field_ctx(.., i + 1): the toggle of its own comments included)
+pub open spec fn field_ctx<T: VNode>(c: Context, fields: Seq<Pair<T>>, n: nat) -> Context
+    decreases n
+{
+    if n == 0 { c } else { toggle(field_ctx(c, fields, (n - 1) as nat), pair_value(fields[n - 1]).key()) }
+}
+// `out` is what the field formatter returns for field `f` under the ignore state `c` (for some shape, with some trailing trivia)
+pub open spec fn by_formatter<T, U: Fn(&Context, &T, TableType, Shape) -> (T, Vec<Token>)>(formatter: U, c: Context, f: T, tt: TableType, out: T) -> bool {
+    exists|s: Shape, v: Vec<Token>| #[trigger] formatter.ensures((&c, &f, tt, s), (out, v))
+}
+""", module="formatters::table"),
+        Fn(CTX, "check_toggle_formatting", impl_of="Context", mode="stub", sig_edits=[VN], proved_in="ctx", contract="ensures r == toggle(*self, node.key()),"),
+        Fn(TB, "create_table_braces", mode="stub"),
+        Fn(GEN, "format_symbol", mode="stub"),
+        Fn(TB, "format_multiline_table", sig_edits=[Hole("T: std::fmt::Display + Node,", "T: VNode,", kind="proxy", why="proxy trait for the sealed Node; the Display bound is not used by the verified text")], contract="""
+    requires forall|i: int, s: Shape| 0 <= i < ppairs(*fields).len() ==> #[trigger] formatter.requires((&field_ctx(*ctx, ppairs(*fields), (i + 1) as nat), &pair_value(ppairs(*fields)[i]), TableType::MultiLine, s)),
+    ensures
+        ppairs(r.1).len() == ppairs(*fields).len(), //# C02.table_field_count
+        forall|i: int| 0 <= i < ppairs(*fields).len() ==> by_formatter(formatter, field_ctx(*ctx, ppairs(*fields), (i + 1) as nat), pair_value(#[trigger] ppairs(*fields)[i]), TableType::MultiLine, pair_value(ppairs(r.1)[i])), //# C08.table_fields_each_by_the_formatter
+""", edits=[
+            Hole("let current_fields = fields.pairs();", "let ghost fields0 = *fields; let ghost ctx0 = *ctx; let ghost mut k: int = 0;\n    let mut current_fields = peekable(fields.pairs());", kind="wrapper", why="the pairs of the list through the Peekable wrapper carrying the ghost sequence"),
+            Hole("for pair in current_fields {", "while let Some(pair) = current_fields.next() {", kind="desugar", why="for over an iterator: written as its definition"),
+            Loop("while let Some(pair) = current_fields.next()", """
+        invariant
+            0 <= k <= ppairs(fields0).len(),
+            pk_rest(&current_fields).len() == ppairs(fields0).len() - k,
+            forall|j: int| 0 <= j < pk_rest(&current_fields).len() ==> *(#[trigger] pk_rest(&current_fields)[j]) == ppairs(fields0)[k + j],
+            forall|i: int, s: Shape| 0 <= i < ppairs(fields0).len() ==> #[trigger] formatter.requires((&field_ctx(ctx0, ppairs(fields0), (i + 1) as nat), &pair_value(ppairs(fields0)[i]), TableType::MultiLine, s)),
+            ppairs(fields).len() == k,
+            ctx == field_ctx(ctx0, ppairs(fields0), k as nat), table_type is MultiLine,
+            forall|i: int| 0 <= i < k ==> by_formatter(formatter, field_ctx(ctx0, ppairs(fields0), (i + 1) as nat), pair_value(#[trigger] ppairs(fields0)[i]), TableType::MultiLine, pair_value(ppairs(fields)[i])), //# C08.table_loop
+        ensures k == ppairs(fields0).len(),
+        decreases pk_rest(&current_fields).len(),
+""", step="proof { k = k + 1; }"),
+            After("let (formatted_field, mut trailing_trivia) = formatter(&ctx, field, table_type, shape);", "proof { assert(by_formatter(formatter, ctx, *field, table_type, formatted_field)); }"),
+            Between("if trailing_trivia\n            .iter()\n            .all(trivia_util::trivia_is_whitespace)", "                .collect();\n        }", "trailing_trivia = hole_vec_token();", why="iterator chains over the trailing trivia the formatter handed back (whitespace dropped, comments re-formatted): comment handling, see C03"),
+        ]),
+        Fn(TB, "format_singleline_table", sig_edits=[Hole("T: std::fmt::Display,", "T: VNode,", kind="proxy", why="the Display bound is only used for a width; the proxy trait names the fields in the contract")], contract="""
+    requires forall|i: int, s: Shape| 0 <= i < ppairs(*fields).len() ==> #[trigger] formatter.requires((ctx, &pair_value(ppairs(*fields)[i]), TableType::SingleLine, s)),
+    ensures
+        ppairs(r.1).len() == ppairs(*fields).len(), //# C02.table_field_count
+        forall|i: int| 0 <= i < ppairs(*fields).len() ==> by_formatter(formatter, *ctx, pair_value(#[trigger] ppairs(*fields)[i]), TableType::SingleLine, pair_value(ppairs(r.1)[i])), //# C08.table_fields_each_by_the_formatter
+""", edits=[
+            Hole("let mut current_fields = fields.pairs().peekable();", "let ghost fields0 = *fields; let ghost mut k: int = 0;\n    let mut current_fields = peekable(fields.pairs());", kind="wrapper", why="Iterator::peekable through the wrapper carrying the ghost sequence"),
+            Hole("assert!(trailing_trivia.is_empty());", "", why="C07 (table.rs:312): the assertion rests on the caller's invariant that a table with comments is never laid out on one line (should_expand) and on the field formatter handing back only comments — not derivable here; assumed, exercised by the panic oracle of the sweeps"),
+            Hole("shape = shape + (formatted_field.to_string().len() + 2); // 2 = \", \"", "shape = shape + hole_usize();", why="Display width of the field"),
+            After("let (formatted_field, trailing_trivia) = formatter(ctx, field, table_type, shape);", "proof { assert(by_formatter(formatter, *ctx, *field, table_type, formatted_field)); }"),
+            Loop("while let Some(pair) = current_fields.next()", """
+        invariant
+            0 <= k <= ppairs(fields0).len(),
+            pk_rest(&current_fields).len() == ppairs(fields0).len() - k,
+            forall|j: int| 0 <= j < pk_rest(&current_fields).len() ==> *(#[trigger] pk_rest(&current_fields)[j]) == ppairs(fields0)[k + j],
+            forall|i: int, s: Shape| 0 <= i < ppairs(fields0).len() ==> #[trigger] formatter.requires((ctx, &pair_value(ppairs(fields0)[i]), TableType::SingleLine, s)),
+            ppairs(fields).len() == k, table_type is SingleLine,
+            forall|i: int| 0 <= i < k ==> by_formatter(formatter, *ctx, pair_value(#[trigger] ppairs(fields0)[i]), TableType::SingleLine, pair_value(ppairs(fields)[i])), //# C08.table_loop
+        ensures k == ppairs(fields0).len(),
+        decreases pk_rest(&current_fields).len(),
+""", step="proof { k = k + 1; }"),
+        ]),
+        Raw("""
+pub uninterp spec fn tc_fields(t: TableConstructor) -> Punctuated<Field>;
+pub assume_specification [TableConstructor::fields] (t: &TableConstructor) -> (r: &Punctuated<Field>) ensures *r == tc_fields(*t);
+pub assume_specification [TableConstructor::braces] (t: &TableConstructor) -> (r: &ContainedSpan);
+pub assume_specification [TableConstructor::new] () -> (r: TableConstructor);
+pub assume_specification [TableConstructor::with_braces] (t: TableConstructor, b: ContainedSpan) -> (r: TableConstructor) ensures tc_fields(r) == tc_fields(t);
+pub assume_specification [TableConstructor::with_fields] (t: TableConstructor, f: Punctuated<Field>) -> (r: TableConstructor) ensures tc_fields(r) == f;
+#[verifier::external_body] pub fn first_field(fields: &Punctuated<Field>) -> (r: Option<&Field>) ensures (r is Some) == (ppairs(*fields).len() > 0) { unimplemented!() /* fields.iter().next() */ }
+#[verifier::external_body] pub fn choose_nonempty_layout() -> (r: TableType) ensures !(r is Empty) { unimplemented!() }
+// a field of a table, under the ignore state it is formatted with: ignored => returned as it is; otherwise the same field (kind, key, value trees)
+pub open spec fn field_ok(c: Context, f: Field, out: Field) -> bool {
+    (decision(c, f.key()) is Skip ==> out == f) && (!(decision(c, f.key()) is Skip) ==> field_post(f, out))
+}
+""", module="formatters::table"),
+        Fn(TB, "should_expand", mode="stub"),
+        Fn(TB, "format_table_constructor", contract="""
+    requires
+        forall|i: int| 0 <= i < ppairs(tc_fields(*table_constructor)).len() ==> field_wf(pair_value(#[trigger] ppairs(tc_fields(*table_constructor))[i])),
+        // a table that is formatted lies inside the range, and so do its fields (whatever the ignore state)
+        forall|i: int, c: Context| 0 <= i < ppairs(tc_fields(*table_constructor)).len() ==> !(#[trigger] decision(c, pair_value(ppairs(tc_fields(*table_constructor))[i]).key()) is NotInRange),
+    ensures
+        ppairs(tc_fields(r)).len() == ppairs(tc_fields(*table_constructor)).len(), //# C02.table_constructor_fields
+        (forall|i: int| 0 <= i < ppairs(tc_fields(*table_constructor)).len() ==> field_ok(field_ctx(*ctx, ppairs(tc_fields(*table_constructor)), (i + 1) as nat), pair_value(#[trigger] ppairs(tc_fields(*table_constructor))[i]), pair_value(ppairs(tc_fields(r))[i])))
+        || (forall|i: int| 0 <= i < ppairs(tc_fields(*table_constructor)).len() ==> field_ok(*ctx, pair_value(#[trigger] ppairs(tc_fields(*table_constructor))[i]), pair_value(ppairs(tc_fields(r))[i]))), //# C08.table_constructor_fields
+""", edits=[
+            Hole('const BRACE_LEN: usize = "{".len();', "", why="a width used inside the layout choice only"),
+            Between("match table_constructor.fields().iter().next() {\n        Some(_) => {", "                }\n            }\n        }\n",
+                    "match first_field(table_constructor.fields()) {\n        Some(_) => { choose_nonempty_layout() }\n",
+                    why="the layout choice for a table that has fields (positions of the braces in the input, column width, should_expand): one line or several, never `Empty`"),
+        ]),
     ]
     return its
 
@@ -116,7 +218,12 @@ LABELS = {
     "C03.field_value_comments": dict(props=["C03"], text="take_singleline_trailing_comments: the line comments trailing the value are returned (to be printed behind the comma) and exactly its block comments stay behind it — both read from the same value, so none is dropped"),
     "C03.field_value_comments_of_formatted": dict(props=["C03"], text="format_field_expression_value: the comments it hands on are those trailing the formatted value (after redundant parentheses are removed), not those of the original expression"),
     "C02.field_value_same": dict(props=["C02"], text="format_field_expression_value keeps the value's expression tree whichever layout it picks"),
+    "C02.table_field_count": dict(props=["C02", "C08"], text="format_multiline_table: as many fields as the input"),
+    "C08.table_fields_each_by_the_formatter": dict(props=["C08", "C02"], text="format_multiline_table: field i of the result is what the field formatter returns for field i of the input under the ignore state folded over the fields up to it (so an ignored field, which the formatter returns unchanged, stays unchanged, in its place)"),
+    "C08.table_loop": dict(props=["C08", "C02"], text="format_multiline_table loop invariant: the fields pushed so far correspond one to one to the input's, each the formatter's result under the folded ignore state"),
+    "C02.table_constructor_fields": dict(props=["C02", "C08"], text="format_table_constructor: as many fields as the input (the `Empty` layout, which drops the field list, is only chosen for a table without fields)"),
+    "C08.table_constructor_fields": dict(props=["C08", "C02"], text="format_table_constructor: every field is format_field's result for the field in the same place, under the ignore state folded over the fields up to it (multi-line layout) or the table's own (one-line layout): an ignored field is returned as it is, any other keeps kind, key and value trees"),
     "C02.field_same": dict(props=["C02", "C01"], text="format_field keeps the field kind, the key token / key expression tree and the value's expression tree; a bracketed key that prints with a leading long-bracket string is padded with a space"),
 }
 
-UNIT = Unit("table", items() + [VERIF_MOD], LABELS, macros=[(GEN, "fmt_symbol")], header=HEADER.replace("use full_moon::ast::{Expression,", "use full_moon::ast::{Field, Expression,"))
+UNIT = Unit("table", items() + [VERIF_MOD], LABELS, macros=[(GEN, "fmt_symbol")], header=HEADER.replace("use full_moon::ast::{Expression,", "use full_moon::ast::{Field, Expression,") + "use full_moon::ast::punctuated::Pair;\n")
